@@ -64,7 +64,8 @@ class Topo:
 class CW:
     """candidate world: the World plus symbolic handles for the oracle"""
 
-    def __init__(self, ctx, topo, rcs=('VCPU', 'DISK_GB'), naggs=2,
+    def __init__(self, ctx, topo, rcs=('VCPU', 'MEMORY_MB', 'DISK_GB'),
+                 naggs=2,
                  usage=True, ratio=None):
         self.ctx = ctx
         self.topo = topo
